@@ -256,10 +256,10 @@ def analyse(ur, diags, res):
         clause, tags = None, []
         if kind == 'pre' and body_span is not None and body_span['line_start'] in ur.inj_proof:
             kind = 'assert'   # a lemma call inside an injected proof block: part of the function's own proof
-        if clause_span is not None and kind in ('post', 'inv', 'pre'):
+        if clause_span is not None and kind in ('post', 'inv', 'pre', 'closure-post'):
             m = nearest_marker(ur.markers, clause_span['line_start'], clause_span['column_start'], ur.lines)
             cf = ur.fn_at(clause_span['line_start'])
-            if m and (cf is None or f is None or cf['id'] == f['id'] or kind == 'pre'):
+            if m and (cf is None or f is None or cf['id'] == f['id'] or kind in ('pre', 'closure-post')):
                 clause, tags = m[2], list(m[3])
         if kind in ('inv',) and clause is None and body_span is not None:
             m = nearest_marker(ur.markers, body_span['line_start'], body_span['column_start'], ur.lines)
@@ -272,7 +272,8 @@ def analyse(ur, diags, res):
         if kind in ('pre', 'arith', 'decreases', 'closure-post'):
             # safety obligations: C08 (never panics / terminates); a closure contract carries its function's tags
             if kind == 'closure-post' and f is not None:
-                tags = sorted(set(tags) | set(ur.fn_tags(f)))
+                if not tags:
+                    tags = sorted(set(ur.fn_tags(f)))
                 clause = clause or (f['id'] + '.closure')
             else:
                 extra = set((f.get('safety_tags') or '').split(',')) - {''} if f else set()
